@@ -4,19 +4,31 @@ C10 — de-duplication conserves receptions and emits each frame once per window
 Model: Rs1090/Model/Dedup.lean (`step`/`run`: one iteration / a whole history of the receive loop of
 crates/jet1090/src/dedup.rs, cache and heap as in the Rust function; `stepG`/`runG` are the same
 loop reporting the groups taken out of the cache, of which the records are a function:
-`records_of_groups`).  Spec: Rs1090/Spec/Dedup.lean (groups, windows, records, written from the
-property text without a heap).  Lemmas: Rs1090/Proofs/Dedup*.lean.
+`records_of_groups`).  Spec: Rs1090/Spec/Dedup.lean — the grouping rule AS IMPLEMENTED, without the
+heap (groups, windows, records; join first, then close: `refines_spec` is heap elimination) — and
+Rs1090/Spec/DedupStrict.lean — an INDEPENDENT reading of "window" (close first, then join), with the
+exact condition under which the two agree (`strict_spec_agrees_iff`) and the witness where they
+differ (`strict_spec_differs`).  Lemmas: Rs1090/Proofs/Dedup*.lean.
+
+Verdict on the late joiner (`closing_arrival_joins_its_group`): every clause of the property text —
+each reception in exactly one record once its window has closed (`conservation`, `exactly_once`,
+`emitted_when_closed_hist`), frame / first-arrival time stamp / all members' receptions in arrival
+order (`record_shape`), spacing and order under non-decreasing times (`spacing`, `ordered`) — is
+proved for the implemented rule on ALL histories, late joiners included.  The text does not say
+which receptions form a group; it is satisfied by both rules.  So the late joiner is an
+OBSERVATION (it contradicts the doc comment of dedup.rs, not C10), not a finding.
 
 Every theorem quantifies over **all** histories (`List Arrival`, any length), any number of frames
 and receivers, arbitrary time stamps (equal, decreasing, far apart) unless `Monotone` is assumed,
 every window length `w` (0 included) and every decodability predicate.
 -/
-import Rs1090.Proofs.DedupSpec
+import Rs1090.Proofs.DedupStrict
 import Rs1090.Model.Decode.Message
 namespace Rs1090.Props.C10
 open Rs1090 Rs1090.Dedup
 open Rs1090.Spec.Dedup (firstT closes WellFormed members recordOf records before Monotone Spaced
   Ordered StrictlyOrdered sortBy)
+open Rs1090.Spec.DedupStrict (LateJoin NoLateJoin)
 
 /-! ### The invariant: cache and heap stay in step -/
 
@@ -123,6 +135,26 @@ theorem emitted_when_closed (w : Nat) (s : State) (a : Arrival) (h : Inv w s) :
     ∀ g ∈ (stepG w s a).2, firstT g + w ≤ a.t := fun g hg => by
   simpa [closes] using (stepG_spec a h).2.2.2.1 g hg
 
+/-- `emitted_when_closed` for histories: the records sent while the arrival `a` is processed —
+    `run (hist ++ [a])` sends what `run hist` sent and then `new` — all belong to groups whose
+    window is over at `a.t`: `r.ts + w ≤ a.t`.  No record leaves before its window has closed. -/
+theorem emitted_when_closed_hist (w : Nat) (dec : Frame → Bool) (hist : List Arrival) (a : Arrival) :
+    ∃ new, (run w dec init (hist ++ [a])).2 = (run w dec init hist).2 ++ new ∧
+      ∀ r ∈ new, r.ts + w ≤ a.t := by
+  refine ⟨records dec (stepG w (runG w init hist).1 a).2, ?_, ?_⟩
+  · rw [records_of_groups, records_of_groups, runG_snoc, records_append]
+  · intro r hr
+    simp only [records, List.mem_map, List.mem_filter] at hr
+    obtain ⟨g, ⟨hg, _⟩, rfl⟩ := hr
+    exact emitted_when_closed w _ a (inv_runG hist (Dedup.inv_init w)) g hg
+
+/-- … the same for the groups (undecodable ones included): a group taken out of the cache while `a`
+    is processed, after any history, has `first + w ≤ a.t`. -/
+theorem emitted_groups_when_closed_hist (w : Nat) (hist : List Arrival) (a : Arrival) :
+    (runG w init (hist ++ [a])).2 = (runG w init hist).2 ++ (stepG w (runG w init hist).1 a).2 ∧
+    ∀ g ∈ (stepG w (runG w init hist).1 a).2, firstT g + w ≤ a.t :=
+  ⟨by rw [runG_snoc], emitted_when_closed w _ a (inv_runG hist (Dedup.inv_init w))⟩
+
 /-- **closed groups are emitted** (one iteration): after an arrival at time `t` has been
     processed, no group with expiry ≤ t remains in the cache. -/
 theorem closed_groups_emitted_step (w : Nat) (s : State) (a : Arrival) (h : Inv w s) :
@@ -207,10 +239,12 @@ theorem window_zero (dec : Frame → Bool) (hist : List Arrival) :
 
 /-! ### Refinement, panics, fuel -/
 
-/-- The model computes the abstract specification: same open groups, same records, for every
-    history.  (Spec/Dedup.lean: a group is opened by the first arrival of a frame without open
-    group, joined by the later ones, closed by the first arrival — of any frame, itself included —
-    at or after first + w; groups closed together leave by (first arrival, frame bytes).) -/
+/-- Heap elimination: the model computes the grouping rule as implemented, stated without the
+    heap — same open groups, same records, for every history.  (Spec/Dedup.lean: a group is opened
+    by the first arrival of a frame without open group, joined by the later ones, closed by the
+    first arrival — of any frame, itself included, and then AFTER it has joined — at or after
+    first + w; groups closed together leave by (first arrival, frame bytes).)  This is not
+    conformance to an independent reading of "window": see `strict_spec_agrees_iff`. -/
 theorem refines_spec (w : Nat) (dec : Frame → Bool) (hist : List Arrival) :
     ((run w dec init hist).1.cache, (run w dec init hist).2) = Spec.Dedup.run w dec hist := by
   rw [records_of_groups]
@@ -312,14 +346,16 @@ theorem spacing_needs_monotone :
     arrival.  The arrival that closes a group joins it first when it carries the same frame — here
     a repetition of the frame a full second later (window 400 ms) is merged into the first record
     instead of opening a group of its own.  All clauses of C10 hold (one record, first time stamp,
-    both receptions in order); see notes/C10.md. -/
+    both receptions in order); see notes/C10.md.  An independent reading of "window" gives two
+    groups here: `strict_spec_differs`. -/
 theorem closing_arrival_joins_its_group :
     (run 400 (fun _ => true) init [⟨0, [1], [1]⟩, ⟨1000, [1], [2]⟩]).2 = [⟨[1], 0, [1, 2]⟩] := by
   decide
 
 /-- … and this is the only way: every member of a group that stays open has a time stamp before
-    first + w (one iteration; for any time stamps), so in a group that leaves, every member except
-    possibly the last one — the arrival that closed it — has. -/
+    first + w (one iteration; for any time stamps).  History forms, also for the groups that
+    leave: `members_within_window_hist`, `emitted_members_within_window`,
+    `late_member_is_closing_arrival` below. -/
 theorem members_within_window (w : Nat) (s : State) (a : Arrival) (h : Inv w s)
     (hb : ∀ g ∈ s.cache, ∀ m ∈ g.2, m.t < firstT g + w) :
     ∀ g ∈ (stepG w s a).1.cache, ∀ m ∈ g.2, m.t < firstT g + w := by
@@ -358,6 +394,103 @@ theorem members_within_window (w : Nat) (s : State) (a : Arrival) (h : Inv w s)
   rcases this (fun x hx => (h.wf x hx).1) hb g hg' m hm with rfl | h1
   · exact hopen
   · exact h1
+
+/-- `members_within_window` for histories — **open groups**: after ANY history (any time stamps),
+    every member of every group still in the cache arrived inside the group's window
+    `[first, first + w)`. -/
+theorem members_within_window_hist (w : Nat) (dec : Frame → Bool) (hist : List Arrival) :
+    ∀ g ∈ (run w dec init hist).1.cache, ∀ m ∈ g.2, m.t < firstT g + w := by
+  rw [records_of_groups]
+  exact (runG_within hist (Dedup.inv_init w) (within_nil w)).1
+
+/-- … — **emitted groups**: in every group that has left (hence in every record sent,
+    `record_shape`), every member except possibly the LAST one arrived inside the window
+    `[first, first + w)`. -/
+theorem emitted_members_within_window (w : Nat) (hist : List Arrival) :
+    ∀ g ∈ (runG w init hist).2, ∀ m ∈ g.2.dropLast, m.t < firstT g + w :=
+  (runG_within hist (Dedup.inv_init w) (within_nil w)).2
+
+/-- … and the last member is late only in one way: it is the very arrival whose processing made the
+    group leave (it joined the group of its frame, line 32 of dedup.rs, before the expiry loop ran).
+    For every history `hist` followed by an arrival `a`: in a group that leaves while `a` is
+    processed, every member other than `a` itself arrived inside the window. -/
+theorem late_member_is_closing_arrival (w : Nat) (hist : List Arrival) (a : Arrival) :
+    ∀ g ∈ (stepG w (runG w init hist).1 a).2, ∀ m ∈ g.2, m = a ∨ m.t < firstT g + w :=
+  (stepG_within a (inv_runG hist (Dedup.inv_init w))
+    (runG_within hist (Dedup.inv_init w) (within_nil w)).1).2.2
+
+/-! ### The implemented grouping rule against an independent reading of "window"
+
+`Spec/Dedup.lean` (used by `refines_spec`) is the grouping rule AS IMPLEMENTED, without the heap:
+the arrival joins the group of its frame first, then the groups whose window is over are closed.
+`Spec/DedupStrict.lean` is an independent reading of the property text / of the doc comment of
+dedup.rs: a reception belongs to a group only if it arrives inside the window, so the groups whose
+window is over are closed BEFORE the arrival joins.  `LateJoin w opened a`: the arrival `a` finds
+the open group of its own frame with `first + w ≤ a.t`. -/
+
+/-- One arrival, in any reachable state (`Inv`): model and strict reading give the same open and
+    closed groups **iff** the arrival is no late joiner. -/
+theorem strict_step_agrees_iff (w : Nat) (s : State) (a : Arrival) (h : Inv w s) :
+    ((stepG w s a).1.cache, (stepG w s a).2) = Spec.DedupStrict.stepG w s.cache a ↔
+      ¬ LateJoin w s.cache a := by
+  rw [stepG_refines a h]
+  constructor
+  · intro heq hl; exact strict_step_differs h.nodup hl heq.symm
+  · intro hl; exact (strict_step_agrees (fun g hg => (h.wf g hg).1) hl).symm
+
+/-- Histories without late joiner: the model computes the strict reading too — same open groups,
+    same records. -/
+theorem strict_spec_agrees (w : Nat) (dec : Frame → Bool) (hist : List Arrival)
+    (h : NoLateJoin w hist) :
+    ((run w dec init hist).1.cache, (run w dec init hist).2) = Spec.DedupStrict.run w dec hist := by
+  rw [refines_spec]
+  simp only [Spec.Dedup.run, Spec.DedupStrict.run,
+    strict_runG_agrees hist (o := []) (fun _ hg => by cases hg) h]
+
+/-- … and exactly those: the model's groups (open and closed) are those of the strict reading
+    after EVERY prefix of the history **iff** no arrival of the history is a late joiner. -/
+theorem strict_spec_agrees_iff (w : Nat) (hist : List Arrival) :
+    (∀ pre suf, hist = pre ++ suf →
+      ((runG w init pre).1.cache, (runG w init pre).2) = Spec.DedupStrict.runG w [] pre) ↔
+    NoLateJoin w hist := by
+  constructor
+  · intro hag pre a post hp
+    have h1 := hag pre (a :: post) hp
+    have h2 := hag (pre ++ [a]) post (by rw [hp]; simp)
+    exact (strict_snoc_iff (hist := pre) (a := a) h1).mp h2
+  · intro hn pre suf hp
+    have hn' : NoLateJoin w pre := noLateJoin_prefix (hp ▸ hn)
+    rw [runG_refines (w := w) pre (Dedup.inv_init w)]
+    exact (strict_runG_agrees pre (o := []) (fun _ hg => by cases hg) hn').symm
+
+/-- The first late joiner is where they part: if model and strict reading agree after `hist` and
+    the next arrival `a` is a late joiner, they differ after `hist ++ [a]` (the strict reading
+    closes the old group as it is and opens a new one for `a`; the model closes it with `a` in it). -/
+theorem strict_spec_first_divergence (w : Nat) (hist : List Arrival) (a : Arrival)
+    (hag : ((runG w init hist).1.cache, (runG w init hist).2) = Spec.DedupStrict.runG w [] hist)
+    (hl : LateJoin w (Spec.DedupStrict.runG w [] hist).1 a) :
+    ((runG w init (hist ++ [a])).1.cache, (runG w init (hist ++ [a])).2)
+      ≠ Spec.DedupStrict.runG w [] (hist ++ [a]) :=
+  fun heq => (strict_snoc_iff (hist := hist) (a := a) hag).mp heq hl
+
+/-- Witness (the history of `closing_arrival_joins_its_group`): the second arrival is a late
+    joiner; the strict reading sends `[1]@0` with reception 1 alone and keeps the repetition in a
+    group of its own, the model — and the code — send both receptions in one record. -/
+theorem strict_spec_differs :
+    LateJoin 400 (Spec.DedupStrict.runG 400 [] [⟨0, [1], [1]⟩]).1 ⟨1000, [1], [2]⟩ ∧
+    Spec.DedupStrict.run 400 (fun _ => true) [⟨0, [1], [1]⟩, ⟨1000, [1], [2]⟩]
+      = ([([1], [⟨1000, [1], [2]⟩])], [⟨[1], 0, [1]⟩]) ∧
+    ((run 400 (fun _ => true) init [⟨0, [1], [1]⟩, ⟨1000, [1], [2]⟩]).1.cache,
+     (run 400 (fun _ => true) init [⟨0, [1], [1]⟩, ⟨1000, [1], [2]⟩]).2)
+      = ([], [⟨[1], 0, [1, 2]⟩]) := by
+  refine ⟨⟨([1], [⟨0, [1], [1]⟩]), by decide, by decide, by decide⟩, by decide, by decide⟩
+
+/-- `NoLateJoin` is satisfiable with a non-trivial output: the first example of the section
+    "Non-vacuity" above (frame `[1]` re-appears after its group was closed by another frame's
+    arrival, and the last arrival closes a group of another frame). -/
+example : NoLateJoin 400
+    [⟨0, [1], [10]⟩, ⟨100, [1], [20]⟩, ⟨150, [2], [11]⟩, ⟨400, [3], [12]⟩, ⟨990, [1], [21]⟩,
+     ⟨2000, [3], [13]⟩] := (noLateJoin_iff _).mpr (by decide)
 
 /-! ### composed with the decoder model
 
